@@ -27,8 +27,15 @@ def arg_catalog(k):
         "generic":   dict(decl="g: T", setup="let g = Tok(17);", pass_="g", fields={"g": "Tok(17)"}, generic="T: std::fmt::Debug"),
         "impl_tr":   dict(decl="i: impl std::fmt::Debug", setup="let i = Tok(18);", pass_="i", fields={"i": "Tok(18)"}),
         "str_ref":   dict(decl="s: &str", setup="let s = String::from(\"s-val\");", pass_="&s", fields={"s": "s-val"}),
-        "flag":      dict(decl="f: bool", setup="let f = true;", pass_="f", fields={"f": "true"}),
+        "flag":      dict(decl="f: bool", setup="let f = true;", pass_="f", fields={"f": "true"}, m={"f": "bool"}),
+        # primitive types are recorded as typed values also when they are spelled with a path, behind a reference, or generic
+        "qual_string": dict(decl="t: std::string::String", setup="let t = String::from(\"q-val\");", pass_="t", fields={"t": "q-val"}, m={"t": "str"}),
+        "wrapping":  dict(decl="w: std::num::Wrapping<u8>", setup="let w = std::num::Wrapping(7u8);", pass_="w", fields={"w": "7"}, m={"w": "u64"}),
+        "nz_ref":    dict(decl="z: &std::num::NonZeroU32", setup="let z = std::num::NonZeroU32::new(9).unwrap();", pass_="&z", fields={"z": "9"}, m={"z": "u64"}),
     }
+# the visitor method each argument field must arrive through ("any": not pinned down by the documentation)
+METH_DEFAULT = {"a": "debug", "b": "debug", "c": "debug", "d": "debug", "x": "any", "y": "any", "p": "any", "q": "any", "g": "debug", "i": "debug",
+                "s": "str", "n": "u64", "self": "debug"}
 
 
 class Gen:
@@ -48,25 +55,28 @@ class Gen:
         if kind in ("boxed_q", "boxed_fn"):
             boxstyle, kind = kind, "boxed"
         if boxstyle == "boxed_fn":
-            argkeys = [a for a in argkeys if a in ("tok_val", "mut_val", "flag")]
-            recv = None
+            argkeys = [a for a in argkeys if a in ("tok_val", "mut_val", "flag", "qual_string", "wrapping")]
         if kind == "boxed":
-            argkeys = [a for a in argkeys if a not in ("impl_tr", "generic", "tok_mut", "str_ref", "tok_ref")]
+            argkeys = [a for a in argkeys if a not in ("impl_tr", "generic", "tok_mut", "str_ref", "tok_ref", "nz_ref")]
         if kind != "sync":
             argkeys = [a for a in argkeys if a != "impl_tr" or kind == "async"]
         args = [cat[a] for a in argkeys]
         decls = [a["decl"] for a in args] + ["n: u32"]
         generics = [a["generic"] for a in args if "generic" in a]
         fields = {}
+        meths = dict(METH_DEFAULT)
         for a in args:
             fields.update(a["fields"])
+            meths.update(a.get("m", {}))
         fields["n"] = "{n}"
         if recv:
             decls = [{"ref": "&self", "mut": "&mut self", "val": "self"}[recv]] + decls
             fields["self"] = "Obj(Tok(10))"
         # ---- return shape and body ----------------------------------------------------------
+        if ret == "factory" and kind != "async":
+            ret = "value"
         rty = {"unit": "()", "value": "u32", "tok": "Tok", "result": "Result<u32, MyErr>", "impl": "impl std::fmt::Debug",
-               "early": "u32", "question": "Result<u32, MyErr>", "panic": "u32"}[ret]
+               "early": "u32", "question": "Result<u32, MyErr>", "panic": "u32", "factory": "impl std::future::Future<Output = u32>"}[ret]
         if kind == "boxed" and ret == "impl":
             ret, rty = "value", "u32"
         y = "yield_once().await;" if kind != "sync" else ""
@@ -92,10 +102,12 @@ class Gen:
             body.append(y)
             body.append('effect("t%d:b2");' % k)
         tail = {"unit": "", "value": "n + 1", "tok": "Tok(90)", "result": "if n == 3 { Err(MyErr(n)) } else { Ok(n + 2) }", "impl": "Tok(91)",
-                "early": "n + 3", "question": "Ok(v + 1)", "panic": "n + 4"}[ret]
+                "early": "n + 3", "question": "Ok(v + 1)", "panic": "n + 4",
+                # an async fn that RETURNS another future: its own body runs in the span, the returned future does not
+                "factory": 'async move { effect("t%d:inner0"); yield_once().await; effect("t%d:inner1"); n + 7 }' % (k, k)}[ret]
         if tail:
             body.append(tail)
-        inputs = {"unit": [0], "value": [0, 5], "tok": [0], "result": [0, 3], "impl": [0], "early": [0, 1], "question": [0, 3], "panic": [0, 2]}[ret]
+        inputs = {"unit": [0], "value": [0, 5], "tok": [0], "result": [0, 3], "impl": [0], "early": [0, 1], "question": [0, 3], "panic": [0, 2], "factory": [0, 5]}[ret]
         # ---- attribute ------------------------------------------------------------------------
         parts = []
         name = "inst"
@@ -167,10 +179,12 @@ class Gen:
             elif cf == "override" and "flag" in argkeys:
                 custom.append("f = n")     # a custom field replaces the argument of the same name
                 fields["f"] = "{n}"
+        for cf_name in [c.split("=")[0].strip().lstrip("?%") for c in custom]:
+            meths[cf_name] = "any"
         if custom:
             parts.append("fields(%s)" % ", ".join(custom))
         retcfg = None
-        if attr.get("ret") and ret not in ("unit",):
+        if attr.get("ret") and ret not in ("unit", "factory"):
             mode = attr["ret"]
             if mode == "display" and ret not in ("value", "tok", "early", "panic"):
                 mode = "debug"
@@ -204,11 +218,14 @@ class Gen:
             g2 = "<'a%s>" % ("".join(", " + g for g in generics))
             if boxstyle == "boxed_fn":
                 # the older async-trait shape: a helper `async fn` defined in the body, Box::pin(helper(args))
-                names_only = [d.split(":")[0].replace("mut ", "").strip() for d in decls]
-                outer = [d.replace("mut ", "") for d in lt_decls]
+                names_only = [("self" if d in ("&self", "&mut self", "self") else d.split(":")[0].replace("mut ", "").strip()) for d in decls]
+                outer = [(d if "self" in d.split(":")[0] else d.replace("mut ", "")) for d in lt_decls]
+                # the helper takes the receiver as `_self` (what async-trait used to generate); the attribute presents it as `self`
+                hdecls = [{"&self": "_self: &Obj", "&mut self": "_self: &mut Obj", "self": "_self: Obj"}.get(d, d) for d in decls]
+                hbody = bodytxt.replace("&self", "&_self") if recv else bodytxt
                 return ("    %s\n    pub fn %s%s(%s) -> std::pin::Pin<Box<dyn std::future::Future<Output = %s> + 'a>> {\n        effect(\"t%d:pre\");\n"
                         "        async fn __helper(%s) -> %s {\n        %s\n        }\n        Box::pin(__helper(%s))\n    }") % (
-                            at, nm, g2, ", ".join(outer), rty, k, ", ".join(decls), rty, bodytxt, ", ".join(names_only))
+                            at, nm, g2, ", ".join(outer), rty, k, ", ".join(hdecls), rty, hbody, ", ".join(names_only))
             pin = "std::boxed::Box::pin" if boxstyle == "boxed_q" else "Box::pin"
             return ("    %s\n    pub fn %s%s(%s) -> std::pin::Pin<Box<dyn std::future::Future<Output = %s> + 'a>> {\n        effect(\"t%d:pre\");\n"
                     "        %s(async move {\n        %s\n        })\n    }") % (at, nm, g2, ", ".join(lt_decls), rty, k, pin, bodytxt)
@@ -221,7 +238,7 @@ class Gen:
             setup.append({"ref": "let o = Obj(Tok(10));", "mut": "let mut o = Obj(Tok(10));", "val": "let o = Obj(Tok(10));"}[recv])
             callee = "o.{f}"
         call = callee + "(%s)" % ", ".join(passes)
-        aw = ".await" if kind != "sync" else ""
+        aw = (".await.await" if ret == "factory" else ".await") if kind != "sync" else ""
         describe = "describe(&r)" if ret != "unit" else "String::from(\"()\")"
         run_body = "        %s\n        let out = if which { let r = %s%s; %s } else { let r = %s%s; %s };\n        effect(\"t%d:returned\");\n        out" % (
             "\n        ".join(setup), call.format(f="inst" if not recv else "inst"), aw, describe, call.format(f="plain"), aw, describe, k)
@@ -241,7 +258,7 @@ class Gen:
         cfg = '#[cfg(feature = "fragile")]\n' if fragile else ""
         self.rs.append("%spub mod t%d {\n    use super::super::helpers::*;\n%s\n%s\n%s\n}" % (cfg, k, head, fns, runner))
         self.twins.append({"id": k, "kind": kind, "boxstyle": boxstyle, "ret": ret, "recv": recv or "", "args": argkeys, "attr": attr_txt, "name": name, "level": level,
-                           "target": target or ("instr::corpus::t%d" % k), "parent": parent, "follows": follows, "fields": fields,
+                           "target": target or ("instr::corpus::t%d" % k), "parent": parent, "follows": follows, "fields": fields, "meths": {f: meths.get(f, "any") for f in fields},
                            "retcfg": retcfg or {"mode": "", "level": 0}, "errcfg": errcfg or {"mode": "", "level": 0}, "inputs": inputs,
                            "has_ret": bool(retcfg), "has_err": bool(errcfg), "fragile": fragile})
 
@@ -270,6 +287,13 @@ class Gen:
             for recv in ("ref", "mut", "val"):
                 self.twin(kind, ["tok_val"], rng.choice(rets), recv=recv)
                 self.twin(kind, [], rng.choice(rets), recv=recv, attr={"skip": ["self"], "ret": "debug"})
+        # systematic: async fns returning another future; the helper-fn shape with each receiver
+        for args in (["tok_val"], ["tok_ref", "flag"], []):
+            self.twin("async", args, "factory")
+            self.twin("async", args, "factory", attr={"level": 2, "name": True})
+        for recv in ("ref", "mut", "val"):
+            for ret in ("value", "result", "unit"):
+                self.twin("boxed_fn", ["tok_val"], ret, recv=recv)
         # systematic: every custom-field form x kind
         for kind in kinds:
             for cf in ["expr", "disp", "dbg", "sigil_dbg", "sh_dbg_b", "sh_disp_b", "lit", "dotted", "override"]:
